@@ -1210,7 +1210,7 @@ func (m *model) syncLog(t fataler, e *env, all bool) {
 	// A case that may put two rotations into one clock second (cfg.Prone) and did rotate: lost or mangled records
 	// are the name collision of KF-C10-4 (the second rename replaces the first rotated file, or races its compressor,
 	// in a different way on every run).  Every other case is built so that no two rotations share a second.
-	proneRot := m.cfg.Prone && e.sawRotated
+	proneRot := m.cfg.Prone && e.sawRotated && vstat.IsListed(sigRotSameSecond) // KF-C10-4 is repaired: the label is used only while it is listed
 	if err != nil {
 		if proneRot {
 			m.fail(t, sigRotSameSecond, "%v (rotations within one clock second are possible in this case)", err)
